@@ -8,7 +8,7 @@ from lib.core import Outcome, run_case, fnum
 
 ID = "C07"
 LEVEL = "exploration"
-RULE = ("Hypothesis generates systems and variables from {distance, distanceZ, distanceXY, angle, dihedral, gyration, rmsd} and "
+RULE = ("Hypothesis generates systems and variables from {distance, distanceZ, distanceXY, angle, dihedral, gyration, rmsd, eigenvector} and "
         "their +-1 combinations over disjoint atoms (masses, multi-atom groups, oneSiteTotalForce), force-timing convention, "
         "temperature, hideJacobian/subtractAppliedForce. Oracles: (inverse) feeding back as atomic total forces exactly what "
         "Colvars applied for a variable force f gives total force f (+ k_B T x documented Jacobian derivative); (linear) "
@@ -27,6 +27,25 @@ def tf_colvar(draw, sysd, name="cv1"):
     ncomp = draw(st.sampled_from([1, 1, 2]))
     used = []
     comps = []
+    if ncomp == 1 and sysd["natoms"] >= 6 and draw(st.integers(0, 7)) == 0:
+        # projection on a vector in a fitted frame (separate fitting group, as the documentation requires for exact forces)
+        c = draw(gen.comp_eigenvector(sysd))
+        grp = dict(c["groups"])["atoms"]
+        # the measurement projects the forces on the main group only: it inverts the applied force when the fitting group (which
+        # receives the fit-gradient forces) is disjoint from it
+        fitg = [a for a in range(1, sysd["natoms"] + 1) if a not in grp["atoms"]]
+        if len(fitg) < 4:
+            grp["atoms"] = grp["atoms"][:max(2, sysd["natoms"] - 4)]
+            fitg = [a for a in range(1, sysd["natoms"] + 1) if a not in grp["atoms"]]
+            c["kv"]["refPositions"] = " ".join(c["kv"]["refPositions"].split(") (")[:len(grp["atoms"])]) if False else c["kv"]["refPositions"]
+        grp["fitgroup"] = fitg[:6]
+        grp["refpos"] = draw(gen.ref_positions(sysd, grp["fitgroup"]))
+        na = len(grp["atoms"])
+        c["refpos"] = c["refpos"][:na]
+        c["vector"] = c["vector"][:na]
+        c["kv"]["refPositions"] = " ".join(gen.vec3(p) for p in c["refpos"])
+        c["kv"]["vector"] = " ".join(gen.vec3(p) for p in c["vector"])
+        return {"name": name, "comps": [{"comp": c, "coeff": 1.0, "exp": 1, "tkey": "eigenvector"}], "vtype": gen.SCALAR}
     for i in range(ncomp):
         t = draw(st.sampled_from(TYPES))
         n = sysd["natoms"]
